@@ -5,7 +5,7 @@ use std::path::{Path, PathBuf};
 use walrus_rust::wal::verif;
 use walrus_rust::{FsyncSchedule, ReadConsistency, Walrus};
 
-pub const KEYS: [&str; 3] = ["k0", "k1", "k/2"];
+pub const KEYS: [&str; 5] = ["k0", "k1", "k/2", "##", "@@"];
 
 fn topic_name(t: u8) -> &'static str {
     TOPICS[t as usize % TOPICS.len()]
@@ -478,6 +478,11 @@ pub fn run_segment(root: &Path, job: &Job, from: usize, to: usize, last: bool, m
     if !job.pre_image.is_empty() {
         // a recovery run happens later than every incarnation of the recorded workload
         ctx.sym.incarnations += 100;
+    }
+    if job.cfg.decoy_first {
+        verif::set_clock(1_600_000_000_000 + from as u64);
+        let decoy = Walrus::builder().data_dir(root.join("d9")).key("decoy").fsync_schedule(FsyncSchedule::NoFsync).build();
+        drop(decoy);
     }
     let open_res = ctx.reopen_all();
     if reopen_after_restart {
